@@ -302,7 +302,9 @@ def replay_roundtrip():
 SHAPES = [dict(admin__context__deprecated=[]), dict(deprecated=[]), dict(deprecated=[], admin__context__deprecated=["md5_crypt"]),
           dict(staff__context__default="md5_crypt"), dict(deprecated=["auto"]), dict(admin__context__deprecated=["auto"]),
           dict(admin__md5_crypt__salt_size=0), dict(sha256_crypt__vary_rounds=0), dict(staff__sha256_crypt__default_rounds=5000),
-          dict(all__vary_rounds=0.0), dict(des_crypt__truncate_error=False, admin__des_crypt__truncate_error=True)]
+          dict(all__vary_rounds=0.0), dict(des_crypt__truncate_error=False, admin__des_crypt__truncate_error=True),
+          dict(sha256_crypt__vary_rounds=0.001), dict(sha256_crypt__vary_rounds=0.125), dict(admin__sha256_crypt__vary_rounds=1e-05),
+          dict(sha256_crypt__vary_rounds=0.3333333333333333)]
 
 
 def _decisions(ctx):
